@@ -22,6 +22,9 @@ Decided clauses:
        read off the shuffles; round 0 (sigma[0] is the identity) calibrates which sigma position every slot takes, and for
        every round r and slot s the word must be blake2b_sigma[r][position(s)]. Each round therefore uses each of the 16
        words exactly once, in the same places as the portable code.
+  R4.9 HMAC key preparation (RFC 2104): in crypto_auth_hmacsha256_init / _hmacsha512_init the block size B is the length of the
+       ipad / opad block handed to the hash; the caller's key is hashed first exactly on the paths whose branch facts give
+       keylen >= B + 1, and used directly only with keylen <= B (which also bounds the `pad[i] ^= key[i]` loop).
 NOT decided: digest values, chunking associativity, the values of the Poly1305 carries, HKDF chaining.
 """
 from .. import terms as T
@@ -162,6 +165,7 @@ def run(ctx, chk):
                    not why, loc=kdf.loc(e.iid), detail="; ".join(why), path=p if why else None, key="R4.7 crypto_kdf_blake2b_derive_from_key")
     chk.floor("R4.7", "BLAKE2b hand-overs in crypto_kdf_blake2b_derive_from_key", n47, 1)
     schedule_rule(prog, chk)
+    hmac_key_rule(prog, chk)
 
 
 BLAKE2B_VECTOR = ("blake2b_compress_ssse3", "blake2b_compress_sse41", "blake2b_compress_avx2")
@@ -210,3 +214,32 @@ def schedule_rule(prog, chk):
                    key="R4.8 %s round %d" % (name, r))
     if prog.config == "native":
         chk.floor("R4.8", "vector BLAKE2b backends with a recovered message schedule", nb, 3)
+
+
+def hmac_key_rule(prog, chk):
+    """R4.9: a key is hashed iff it is longer than the hash's block size"""
+    n = 0
+    for name in ("crypto_auth_hmacsha256_init", "crypto_auth_hmacsha512_init"):
+        fn = prog.need(name, rule="R4.9")
+        KEY, KLEN = ("arg", 1), ("arg", 2)
+        for p in cm.paths(prog, fn):
+            if p.kind != "ret":
+                continue
+            ups = [e for e in p.calls() if (e.callee_name() or "").endswith("_update") and len(e.args) >= 3]
+            blocks = {e.args[2][1] for e in ups if T.root(e.args[1])[0] == "alloca" and e.args[2][0] == "c"}
+            if len(blocks) != 1:
+                raise AnalysisBroken("R4.9: %s feeds pad blocks of %s bytes to the hash" % (name, sorted(blocks)))
+            B = blocks.pop()
+            hashed = [e for e in ups if e.args[1] == KEY]
+            iv = p.facts.interval(KLEN) or (0, (1 << 64) - 1)
+            n += 1
+            if hashed:
+                ok = iv[0] == B + 1
+                chk.ob("R4.9", fn, "the key is hashed first only when it is longer than the block size (%d)" % B, ok, loc=fn.loc(hashed[0].iid),
+                       path=None if ok else p, detail="" if ok else "on this path keylen can be as small as %d: a key of exactly %d bytes is "
+                       "replaced by its hash, RFC 2104 uses it as it is" % (iv[0], iv[0]), key="R4.9 %s hashed" % name)
+            else:
+                ok = iv[1] <= B
+                chk.ob("R4.9", fn, "a key used directly is at most one block (%d bytes) long" % B, ok, loc=fn.loc(p.end_iid),
+                       path=None if ok else p, detail="" if ok else "keylen may be %d on this path" % iv[1], key="R4.9 %s direct" % name)
+    chk.floor("R4.9", "returning paths of the HMAC init functions", n, 4)
